@@ -119,4 +119,10 @@ CHECKS = {
         "text": "(a) Automorphism counts and orbits of every connected class representative with <=4 atoms (thorough 5), every disconnected pair with <=5 (6) atoms incl. isomorphic components, and symmetric families equal brute-force enumeration per component; the WL estimate never splits a true orbit. (b) deduplicate_matches_with_anchor returns an order-preserving non-empty sub-list for every (host, pattern) pair with >=2 matches under exact, estimated, host and combined orbits. (c) For every corpus pair and for the synthetic two-component family X-Y + C=C (all X,Y, all numberings and component orders of the rule, six substrates), the set of distinct reactions with pruning equals the set obtained by gluing every raw match (pruning switched off by rebinding the module-level name).",
         "note": "Known finding D8 (clause c) matched as an input class: patterns with >=2 components.",
     },
+    "C14": {
+        "ready": True, "engine": "E2+E3",
+        "technique": "deviation-bounded stateless exploration of environment answers on the real batching code: id() reuse of dead objects, every cut of a task list into pickled batches; exhaustive batches over colliding substrates; real pools for conformance",
+        "text": "Every batch of <=3 (thorough 4) entries over four colliding substrates (two reactive, one repeated, one look-alike) x cache off / size 1 / 2 / 32768 x direction, followed by a second fit() with other rule objects, is run on the real BatchReactor under an id() seam that may hand a new object the id of any collected one (<=2 reuses): each entry's output must equal what the entry gives alone. Every cut of 4 (5) entries or 3 rules into pickled batches (joblib semantics) must give the same results; the validators and the balance check are run under every cut of their rows against per-row calls; batched clustering equals one-shot clustering (C13 pools); real loky pools and a real ProcessPoolExecutor (SynCRN parallel build) must reproduce the serial results.",
+        "note": "In W1/W2 the rule engine is replaced by a pure function of the content of (substrate, rule, direction) so that a wrongly served answer is visible and executions are cheap; W1r and W6 use the real engine. OS scheduling, crashes and time-outs are not explored.",
+    },
 }
